@@ -35,6 +35,8 @@ def owners(clause):
     if a == "inv":
         m = re.match(r"(C\d\d)_", b)
         return [m.group(1)] if m else []
+    if a == "release":
+        return ["C18", "C02"]
     if a == "now":
         return ["C03"]
     if a == "loop" or a == "pop":
